@@ -27,7 +27,6 @@ import (
 	"google.golang.org/protobuf/types/known/timestamppb"
 	"reduction.dev/reduction-protocol/handlerpb"
 	"reduction.dev/reduction/batching"
-	"reduction.dev/reduction/connectors/embedded"
 	"reduction.dev/reduction/dkv"
 	"reduction.dev/reduction/dkv/storage"
 	"reduction.dev/reduction/proto"
@@ -48,7 +47,7 @@ func (eng) CoqRequire(mode string) string {
 func (eng) CoqCaseType(mode string) string { return "Check_state.case" }
 func (eng) CoqRun(mode string) string      { return "Check_state.run" }
 func (eng) Rule(mode string) string {
-	return "A case is a history of ops (keyed event with the key results the scripted handler returns for it | batch-timer flush | wait for DKV background tasks | hold / release the memtable flushes | checkpoint barrier | redeploy from a restorable checkpoint) against one real Operator (key-group count 1/2/7/256/65535, batch size 1..5, DKV memtable 96..2048 bytes, table target 128..4096 bytes, L0 trigger 2, smallest level 256..2048 bytes). Subject keys come from adversarial families (empty, nested prefixes, 0x00 / 0xff runs, keys that contain another key's encoded suffix, long), namespaces include empty / prefixes of each other / length-vs-lexicographic order inversions / 255 bytes, entry keys empty / prefixes, values empty..400 bytes (2.5KB thorough). Every fourth case redeploys, in turn: at random points from the latest or the previous checkpoint | from a second checkpoint taken right after one that was taken while a memtable flush was parked (hook points dkv.flush.begin/swap gated) | from an older retained checkpoint after further flushes and a further checkpoint. About a fifth of the events of cases without redeploy carry a storage read fault (ReadAt of table files fails from a generated offset / from the n-th read on) armed while the state for the batch they complete is read: the batch must either fail with the error (no handler call, nothing applied) or hand over the complete state. Non-trivial: the handler was called at least twice, at least one delete or overwrite of a live entry happened and some later call was handed state for that key; distinct by hash of the case."
+	return "A case is a history of ops (keyed event with the key results the scripted handler returns for it | batch-timer flush | wait for DKV background tasks | hold / release the memtable flushes | checkpoint barrier | redeploy from a restorable checkpoint) against one real Operator (key-group count 1/2/7/256/65535, batch size 1..5, DKV memtable 96..2048 bytes, table target 128..4096 bytes, L0 trigger 2, smallest level 256..2048 bytes). Subject keys come from adversarial families (empty, nested prefixes, 0x00 / 0xff runs, keys that contain another key's encoded suffix, long), namespaces include empty / prefixes of each other / length-vs-lexicographic order inversions / 255 bytes, entry keys empty / prefixes, values empty..400 bytes (2.5KB thorough). Every fourth case redeploys, in turn: at random points from the latest or the previous checkpoint | from a second checkpoint taken right after one that was taken while a memtable flush was parked (hook points dkv.flush.begin/swap gated) | from an older retained checkpoint after further flushes and a further checkpoint. An eighth of the events make the sink write of the batch they complete fail (after the handler returned its mutations); later events of the same key must be shown those mutations. About a fifth of the events of cases without redeploy carry a storage read fault (ReadAt of table files fails from a generated offset / from the n-th read on) armed while the state for the batch they complete is read: the batch must either fail with the error (no handler call, nothing applied) or hand over the complete state. Non-trivial: the handler was called at least twice, at least one delete or overwrite of a live entry happened and some later call was handed state for that key; distinct by hash of the case."
 }
 
 // ---------- case format ----------
@@ -77,6 +76,27 @@ type op struct {
 	// fill the batch, or the case redeploys): M "off": every ReadAt of a table file at offset >= V fails;
 	// M "nth": the V-th ReadAt of a table file and all later ones fail. Disarmed when the handler is entered.
 	Fault *faultSpec `json:"fault,omitempty"`
+	// the sink's Write fails for the batch this event completes (ignored if the event does not fill the batch): the
+	// handler has been called and has returned its mutations by then
+	SinkErr bool `json:"sink_err,omitempty"`
+}
+
+// failingSink is the operator's sink: every Write succeeds unless armed.
+type failingSink struct {
+	armed  atomic.Bool
+	failed atomic.Int64
+	writes atomic.Int64
+}
+
+var errSink = errors.New("injected sink write error")
+
+func (s *failingSink) Write(b []byte) error {
+	s.writes.Add(1)
+	if s.armed.Load() {
+		s.failed.Add(1)
+		return errSink
+	}
+	return nil
 }
 
 type faultSpec struct {
@@ -329,7 +349,10 @@ func genCase(r *hx.Rand, idx int, tier string) *hx.Case {
 		}
 		key := hx.Pick(r, keys)
 		o := op{K: "ev", Key: key}
-		if !restore && r.Chance(1, 5) {
+		if r.Chance(1, 8) {
+			o.SinkErr = true
+		}
+		if !restore && !o.SinkErr && r.Chance(1, 5) {
 			if r.Bool() {
 				o.Fault = &faultSpec{M: "off", V: int64(hx.Pick(r, []int{0, 40, 120, 250, 400, 600, 900, 1400, 2500}) + r.Intn(60))}
 			} else {
@@ -575,6 +598,8 @@ func (h *scriptHandler) ProcessEventBatch(ctx context.Context, req *handlerpb.Pr
 		}
 		c.States = append(c.States, o)
 	}
+	// one sink request per batch, so that the sink is written on every batch
+	resp.SinkRequests = append(resp.SinkRequests, &handlerpb.SinkRequest{Value: []byte("out")})
 	// Go map order: sort by subject key (stable: equal keys would be a violation the check sees as a duplicate)
 	sort.SliceStable(c.States, func(a, b int) bool { return bytes.Compare(c.States[a].Key, c.States[b].Key) < 0 })
 	h.calls = append(h.calls, c)
@@ -722,6 +747,7 @@ func (eng) execute(mode string, c *hx.Case) (*hx.Result, error) {
 
 	job := &fakeJob{}
 	ctl := &faultCtl{}
+	sink := &failingSink{}
 	gate := &flushGate{}
 	verifhook.Set(func(name string, args ...any) {
 		switch name {
@@ -749,7 +775,7 @@ func (eng) execute(mode string, c *hx.Case) (*hx.Result, error) {
 		return opr.HandleDeploy(ctx, &workerpb.DeployOperatorRequest{
 			Operators: []*jobpb.NodeIdentity{{Id: "op0", Host: "h"}}, SourceRunnerIds: []string{"sr1"},
 			KeyGroupCount: int32(count), StorageLocation: location, Checkpoints: ck,
-		}, &embedded.RecordingSink{})
+		}, sink)
 	}
 	if err := deploy(nil); err != nil {
 		cancel()
@@ -799,7 +825,7 @@ func (eng) execute(mode string, c *hx.Case) (*hx.Result, error) {
 	}
 	var nextCkpt uint64 = 1
 	nFlushOps, nWait, nCkpt, nRestore := 0, 0, 0, 0
-	nArmed, nFailed, nSwallowed := 0, 0, 0
+	nArmed, nFailed, nSwallowed, nSinkErr := 0, 0, 0, 0
 	nHold, nCkptParked, nRestoreOlder := 0, 0, 0
 	var valid []*snapshotpb.OperatorCheckpoint
 	for i, o := range ops {
@@ -819,9 +845,25 @@ func (eng) execute(mode string, c *hx.Case) (*hx.Result, error) {
 				armed = true
 				nArmed++
 			}
+			sinkArmed := false
+			if o.SinkErr && !armed && len(pending)+1 >= maxSize {
+				sink.failed.Store(0)
+				sink.armed.Store(true)
+				sinkArmed = true
+			}
+			callsBefore := len(h.calls)
 			err := send(&workerpb.Event{Event: &workerpb.Event_KeyedEvent{
 				KeyedEvent: &handlerpb.KeyedEvent{Key: bytes.Clone(o.Key), Value: []byte(strconv.Itoa(i))}}})
 			ctl.armed.Store(false)
+			sink.armed.Store(false)
+			if err != nil && sinkArmed && sink.failed.Load() > 0 && len(h.calls) == callsBefore+1 {
+				// the handler was called and returned its mutations; then the sink write failed and HandleEvent
+				// returned that error. What the next GetState shows is for the check to judge.
+				nSinkErr++
+				steps = append(steps, xstep{kind: "batchE", ops: append(pending, i)})
+				pending = nil
+				continue
+			}
 			if err != nil {
 				if armed && ctl.hits.Load() > 0 {
 					// the batch failed with the error: no handler call, its events are gone
@@ -959,7 +1001,7 @@ func (eng) execute(mode string, c *hx.Case) (*hx.Result, error) {
 	nBatches := 0
 	for _, s := range steps {
 		switch s.kind {
-		case "batch":
+		case "batch", "batchE":
 			nBatches++
 			var evs [][]byte
 			var resp []kres
@@ -974,7 +1016,11 @@ func (eng) execute(mode string, c *hx.Case) (*hx.Result, error) {
 				oc = call{} // missing call: empty observation (code 2)
 			}
 			ci++
-			items = append(items, fmt.Sprintf("OBatch %s %s %s %s", coqKeys(evs), coqResp(resp), coqKeys(oc.EvKeys), coqStates(oc.States)))
+			ctor := "OBatch"
+			if s.kind == "batchE" {
+				ctor = "OBatchE"
+			}
+			items = append(items, fmt.Sprintf("%s %s %s %s %s", ctor, coqKeys(evs), coqResp(resp), coqKeys(oc.EvKeys), coqStates(oc.States)))
 		case "fail":
 			var evs [][]byte
 			for _, i := range s.ops {
@@ -1026,6 +1072,9 @@ func (eng) execute(mode string, c *hx.Case) (*hx.Result, error) {
 	if nWait > 0 {
 		tags = append(tags, "waited_for_flush_compaction")
 	}
+	if nSinkErr > 0 {
+		tags = append(tags, "sink_write_failed_after_handler_call")
+	}
 	if nArmed > 0 {
 		tags = append(tags, "read_fault_armed")
 	}
@@ -1075,7 +1124,7 @@ type xstep struct {
 func steps2ops(steps []xstep) [][]int {
 	var out [][]int
 	for _, s := range steps {
-		if s.kind == "batch" {
+		if s.kind == "batch" || s.kind == "batchE" {
 			out = append(out, s.ops)
 		}
 	}
